@@ -117,6 +117,74 @@ Definition entry_obs (data : bytes) (i : N) (pw : option bytes) (bufsize : N) : 
       end
   end.
 
+(* ---------- scheduled reads (C09) *)
+Definition set_src_plan (t : take_st src) (p : list pev) : take_st src :=
+  {| t_inner := {| s_data := s_data (t_inner t); s_plan := p |}; t_limit := t_limit t |}.
+Definition crypto_set_plan (c : crypto) (p : list pev) : crypto :=
+  match c with
+  | CPlain s => CPlain (set_src_plan s p)
+  | CZip z => CZip {| z_inner := set_src_plan (z_inner z) p; z_keys := z_keys z |}
+  | CAes s v => CAes s v
+  end.
+
+Fixpoint cycle_list {A} (l : list A) (fuel : nat) : list A :=
+  match fuel with O => [] | Datatypes.S f => l ++ cycle_list l f end.
+
+(* caller schedule: cyclic list of buffer sizes (0 = zero-length read); ends at the first end of file on a
+   non-empty buffer, then three more reads must return nothing *)
+Fixpoint sched_loop {S} (rd : reader S) (fuel : nat) (s : S) (bufs all : list N) (acc : bytes) (lens : list N) : obs :=
+  match fuel with
+  | O => T "OUT-OF-FUEL"
+  | Datatypes.S f =>
+      let '(sz, rest) := match bufs with [] => (match all with [] => 64 | x :: _ => x end, match all with [] => [] | _ :: r => r end)
+                                      | x :: r => (x, r) end in
+      match rd s sz with
+      | Ok (bs, s') =>
+          if (len bs =? 0) && negb (sz =? 0) then
+            match rd s' 5 with
+            | Ok ([], s2) => match rd s2 5 with
+                             | Ok ([], s3) => match rd s3 5 with
+                                              | Ok ([], _) => OL [T "Ok"; OB acc; OL (map ON (rev lens))]
+                                              | _ => OL [T "EOF-NOT-STICKY"; OB acc] end
+                             | _ => OL [T "EOF-NOT-STICKY"; OB acc] end
+            | _ => OL [T "EOF-NOT-STICKY"; OB acc]
+            end
+          else sched_loop rd f s' rest all (acc ++ bs) (len bs :: lens)
+      | Err e => OL [T "Err"; err_obs e; OB acc; OL (map ON (rev lens))]
+      | Panic p => OL [T "PANIC"; site_obs p]
+      end
+  end.
+
+Definition entry_sched_obs (data : bytes) (i : N) (pw : option bytes) (plan bufs : bytes) : obs :=
+  match open data with
+  | Err e => OL [T "OpenErr"; err_obs e]
+  | Panic p => OL [T "PANIC"; site_obs p]
+  | Ok ar =>
+      if match nth_error (ar_files ar) (N.to_nat i), pw with
+         | Some f, Some _ => f_encrypted f && opt_is_some (f_aes f)
+         | _, _ => false end
+      then T "SKIP-AES" else
+      match by_index_opt dummy_kdf ar i pw with
+      | Err e => OL [T "Err"; err_obs e]
+      | Panic p => OL [T "PANIC"; site_obs p]
+      | Ok None => match pw with None => OL [T "Err"; err_obs (EUnsupported MPasswordRequired)] | Some _ => T "InvalidPassword" end
+      | Ok (Some (f, ds, c)) =>
+          let m := meta_obs f ds in
+          let fuel := Datatypes.S (length data) in
+          let pl := map (fun b => PChunk (b2n b)) plan in
+          let c' := crypto_set_plan c pl in
+          let bl := map b2n bufs in
+          match c with
+          | CAes _ _ => OL [T "Ok"; m; T "SKIP"]
+          | _ =>
+              if CompressionMethod_eqb (f_method f) CompressionMethod_Stored then
+                OL [T "Ok"; m; sched_loop (zipfile_read dummy_blk dummy_mac crc32) (4 * fuel + 8) (make_stored f c') bl bl [] []]
+              else if method_supported (f_method f) then OL [T "Ok"; m; T "SKIP"]
+              else OL [T "Ok"; m; OL [T "PANIC"; site_obs PMethodNotSupported]]
+          end
+      end
+  end.
+
 Fixpoint insert_sorted (x : bytes) (l : list bytes) : list bytes :=
   match l with
   | [] => [x]
@@ -132,6 +200,12 @@ Definition dispatch_reader (op : bytes) (args : list arg) : option obs :=
   else if is_op op "entry" then
     match args with
     | [AB data; AN i; AN haspw; AB pw; AN bufsize] => Some (entry_obs data i (if N.eqb haspw 0%N then None else Some pw) bufsize)
+    | _ => None end
+  else if is_op op "entry_sched" then
+    match args with
+    | [AB data; AN i; AN haspw; AB pw; AB plan; AB bufs; AN mode] =>
+        if N.eqb mode 0%N then Some (entry_sched_obs data i (if N.eqb haspw 0%N then None else Some pw) plan bufs)
+        else Some (T "IMPL-ONLY")
     | _ => None end
   else if is_op op "byname" then
     match args with
